@@ -130,7 +130,7 @@ def correspondence(ctx):
         res.case(("gauss", n), nontrivial=n >= 5 or n < 1)
     # 3. number_of_quadrature_points
     for adj in ["coincident", "edge_adjacent", "vertex_adjacent", "vertex", "foo"]:
-        for n in [0, 1, 2, 3, 5, 9]:
+        for n in range(0, 34):
             st, val = _call(dg.number_of_quadrature_points, n, adj)
 
             def h(ans, st=st, val=val, adj=adj, n=n):
@@ -310,6 +310,26 @@ def oracle(ctx, deep=False):
             if st == "ok":
                 res.counterexample(f"{name}-rule-{n}-accepted", f"{name} rule lookup for order {n} is not rejected",
                                    order=n)
+    # (c0) advertised point counts for EVERY supported order (cheap), and the rule lookup itself at the top order
+    for adj, fac in (("coincident", 6), ("edge_adjacent", 5), ("vertex_adjacent", 2)):
+        for n in range(1, 31):
+            st, cnt = _call(dg.number_of_quadrature_points, n, adj)
+            res.case(("duffy-count", adj, n), nontrivial=n >= 5)
+            if st != "ok" or cnt != fac * n**4:
+                res.counterexample(f"duffy-count-{adj}-{n}", f"number_of_quadrature_points({n}, {adj!r}) gives "
+                                   f"{cnt if st == 'ok' else st}, advertised {fac * n**4}", order=n, adj=adj)
+    for adj, fac in ((("vertex_adjacent", 2),) if not deep else (("vertex_adjacent", 2), ("edge_adjacent", 5), ("coincident", 6))):
+        st, val = _call(dg.rule, 30, adj)
+        res.case(("duffy-top-order", adj), nontrivial=True)
+        if st != "ok" or len(val[2]) != fac * 30**4:
+            res.counterexample(f"duffy-rule-30-{adj}", f"the {adj} rule of the highest supported order 30 is "
+                               f"{'rejected (' + st + ')' if st != 'ok' else 'built with %d points' % len(val[2])}", order=30, adj=adj)
+        else:
+            w = val[2]
+            s0 = float(np.sum(w))
+            if abs(s0 - 0.25) > 1e-12:
+                res.counterexample(f"duffy-inexact-{adj}-30", f"{adj} rule of order 30 integrates 1 to {s0} instead of 1/4",
+                                   order=30, adj=adj)
     # (c) singular rules: count + polynomial exactness (float, tolerance 1e-12)
     nmax = 6 if deep else 4
     worst = 0.0
